@@ -262,6 +262,24 @@ def main(argv=None):
         mod.run(ctx)
         from vf import frame
         frame.check(ctx, a.pid)  # frame condition shared by all properties (vf/frame.py)
+        # every listed known finding is re-played on every run (both tiers): it must still fail on the real code to stay listed
+        for k in ctx.known.get("findings", []):
+            if k.get("property") != a.pid or not k.get("input") or k in ctx.known_hit:
+                continue
+            try:
+                import contextlib
+                import io
+                rec = json.load(open(os.path.join(VERIF, k["input"])))
+                with contextlib.redirect_stdout(io.StringIO()):
+                    rc = mod.replay(rec)
+            except Exception as e:  # noqa: BLE001
+                ctx.defects.append(f"known finding {k.get('input')}: replay crashed: {e!r}")
+                continue
+            if rc == 1:
+                k["_n"] = k.get("_n", 0) + 1
+                ctx.known_hit.append(k)
+            else:
+                print(f"NOTE: listed finding {k['input']} no longer reproduces on this tree (the entry can become a fixed: line)")
     except Exception:
         traceback.print_exc()
         ctx.defects.append(traceback.format_exc()[-1500:])
